@@ -6,7 +6,7 @@ import Mathlib.Algebra.Order.Field.Basic
 non-negative unit-sum kernel, arrays = functions. -/
 namespace CryoCat.C12
 
-theorem sphere_strict : Gen.C12.sphereOutsideStrict = true := by decide
+theorem sphere_strict : sphereStrict = true := rfl
 
 /-! ### index arithmetic -/
 
